@@ -160,10 +160,12 @@ def report(pid, tier, seed, mod, results, wall, replay_mode=False, partial=False
     funcs = sorted({f for r in results for f in r.get("functions", [])})
     canaries = sum(1 for r in results if r.get("canary") == "refuted")
     cross = sum(1 for r in results if r.get("crosscheck") == "ok")
+    dfn = {k: sum((r.get("definedness") or {}).get(k, 0) for r in results)
+           for k in ("shared_with_contract", "to_prove", "proved", "undecided", "not_reproduced")}
     print(f"[{pid}] tier={tier} obligations={n} discharged={len(disch)} violated={len(viol)} "
           f"(known={len(known_hit)}) undecided={len(undec)} errors={len(errs)} "
           f"canaries_refuted={canaries} crosschecks_ok={cross} backends={backends} "
-          f"solver_s={solver_s:.1f} wall_s={wall:.1f}")
+          f"definedness={dfn['proved']}/{dfn['to_prove']} solver_s={solver_s:.1f} wall_s={wall:.1f}")
     for l in lines:
         print(l)
     meta = getattr(mod, "META", {})
@@ -189,6 +191,11 @@ def report(pid, tier, seed, mod, results, wall, replay_mode=False, partial=False
             "solver_time_s": round(solver_s, 3),
             "canaries_refuted": canaries,
             "interpreter_crosschecks_ok": cross,
+            "definedness_conditions": {
+                "meaning": "divisions / square roots performed by the code: shared with the contract's own expression "
+                           "(same partiality), or proved defined under the precondition; 'undecided' / 'not_reproduced' "
+                           "ones were searched natively without finding a disagreement and are assumptions",
+                **dfn},
             "bounded_standins": {"count": len(bounded),
                                  "passed": sum(1 for r in bounded if r["status"] == "discharged"),
                                  "names": [r["name"] for r in bounded][:50]},
